@@ -9,10 +9,12 @@ CONSTANTS
   LookupsCap = 0
   FailKeep = FALSE
   RegionMemo = FALSE
+  NegCache = FALSE
+  SubMRU = FALSE
   MaxDepth = 4
   MaxDepthDmg = 3
   MaxDepthCollide = 3
-  Families = {"intact", "dmg", "collide", "img", "fill", "scopes", "var"}
+  Families = {"intact", "dmg", "collide", "img", "fill", "scopes", "var", "strike", "pairs"}
   ImgCounts = {2, 3}
   ImgFilterMode = "own"
   MaxImgFilters = 3
@@ -22,6 +24,8 @@ CONSTANTS
   MaxDepthVar = 2
   VarTuples = {"t0", "tA", "tB", "tC"}
   MaxDepthScopes = 2
+  MaxDepthStrike = 2
+  MaxDepthPairs = 2
 SPECIFICATION Spec
 VIEW View
 INVARIANTS AllPure ModelExact
